@@ -15,7 +15,8 @@ RULE = ('generated documents (twin profile favoured so that names repeat); searc
 ASSUMPTIONS = [
     'the order of find_all is not part of the statement: results are compared as multisets of source offsets (find_all[0] defines find)',
     "not queried: names containing '{' or '[' (they are full-expression syntax), TexSoup's internal names for unnamed regions "
-    "($, $$, BraceGroup, math/displaymath when \\( or \\[ occur), attribute access for real TexNode attributes",
+    "($, $$, BraceGroup, math/displaymath when \\( or \\[ occur), attribute access for real TexNode attributes, "
+    "full-expression queries that start with \\end{ (an environment also answers to its closing delimiter)",
 ]
 PROFILES = ['twin', 'smalltwin', 'twin', 'lists', 'twin', 'defs', 'quick', 'twin']
 ABSENT = ['zzz', 'nosuch*']
@@ -135,6 +136,8 @@ def check_doc(nodes, src, case, res):
         for q in sorted(set(fq)):
             if '{' not in q and '[' not in q:
                 continue
+            if q.startswith('\\end{'):
+                continue    # an environment also answers to its closing \end{name}: outside the statement
             exp = set(texts.get(q, []))
             for n, cont, depth in sub:
                 if n.kind in ('env', 'list', 'verb') and q in opening(n, src):
